@@ -30,6 +30,7 @@ CONSTANTS
 VARIABLES v, hist
 vars == <<v, hist>>
 
+StreamRecvWinM == 2   \* a stream's receive window; the server hands every accepted octet back at once (consumeRecvWindow)
 RecvWinM == 4     \* the server's connection receive window, in units; it hands credit back when less than half is left
 
 NoStream == [st |-> "none", hdrDone |-> FALSE, blkES |-> FALSE, trailer |-> FALSE, recv |-> 0, cl |-> -1,
@@ -46,7 +47,7 @@ V0 == [s |-> [i \in Sids |-> NoStream], lastID |-> 0, open |-> 0, hb |-> 0, winC
        lf |-> [ty |-> -1, sid |-> 0], allowed |-> {P}, obs |-> [rst |-> {}, goaway |-> {}, closed |-> FALSE], judged |-> FALSE,
        over |-> FALSE, nf |-> 0,
        \* receive side ("credit" in Ops): the connection window as the server counts it, and the credit the peer holds
-       recvC |-> RecvWinM, credC |-> RecvWinM]
+       recvC |-> RecvWinM, credC |-> RecvWinM, credS |-> [i \in Sids |-> StreamRecvWinM]]
 
 -----------------------------------------------------------------------------
 (* abstract frames: the uniform record RFC7540!Allowed expects *)
@@ -235,13 +236,17 @@ Credit(before, after, f) ==
            counted == ~("defect-nocredit" \in Ops /\ dropped)
            rc == IF counted THEN before.recvC - f.len ELSE before.recvC
            cc == before.credC - f.len
-       IN IF rc < RecvWinM \div 2 THEN [after EXCEPT !.recvC = RecvWinM, !.credC = cc + (RecvWinM - rc)]
-          ELSE [after EXCEPT !.recvC = rc, !.credC = cc]
+           \* stream level: an accepted frame that does not end the stream is handed back in full, at once
+           back == IF dropped \/ f.es \/ "defect-nostreamcredit" \in Ops THEN 0 ELSE f.len
+           a2 == IF f.sid \in Sids /\ x.st = "open" THEN [after EXCEPT !.credS[f.sid] = @ - f.len + back] ELSE after
+       IN IF rc < RecvWinM \div 2 THEN [a2 EXCEPT !.recvC = RecvWinM, !.credC = cc + (RecvWinM - rc)]
+          ELSE [a2 EXCEPT !.recvC = rc, !.credC = cc]
 
 Take(f, fx, ev) ==
   /\ ~v.dead
   /\ v.nf < MaxFrames
-  /\ ("credit" \in Ops /\ f.ty = T_DATA => f.len <= v.credC)        \* the peer is a conforming sender
+  /\ ("credit" \in Ops /\ f.ty = T_DATA => /\ f.len <= v.credC        \* the peer is a conforming sender
+                                             /\ (f.sid \in Sids /\ v.s[f.sid].st = "open" => f.len <= v.credS[f.sid]))
   /\ LET al == AllowedM(v, f, fx)
          r == ServerStep(v, f, fx)
      IN v' = [Credit(v, r.v, f) EXCEPT !.lf = [ty |-> f.ty, sid |-> f.sid], !.allowed = al, !.obs = r.o, !.judged = TRUE, !.nf = v.nf + 1]
@@ -345,6 +350,8 @@ C06_NoStall == ~v.dead => \A i \in Sids :
 C10_GoAwayTruth == v.gaLast >= 0 => \A i \in Sids : v.dispCnt[i] > 0 => i <= v.gaLast
 \* C14: a conforming sender is never left without connection credit
 C14_ConnCredit == ("credit" \in Ops /\ ~v.dead) => v.credC >= 1
+C14_StreamCredit == ("credit" \in Ops /\ ~v.dead) =>
+                      \A i \in Sids : (v.s[i].st = "open" /\ ~v.s[i].peerES /\ ~v.s[i].bad) => v.credS[i] >= 1
 C13_Slots == Cardinality(Running(v)) <= MaxConcM /\ v.open <= MaxConcM /\ v.open >= 0
 C13_OpenIsSlots == v.open = Cardinality({i \in Sids : v.s[i].st \in {"open", "hc"} \/ v.s[i].running})
 
